@@ -1,12 +1,12 @@
 #!/bin/bash
 # regress_seeded.sh : every seeded change must still be caught by the property's own quick check
-# (and /repo itself must pass).  Prints one line per change; exit 1 if one is no longer caught.
+# (and /repo itself must pass).  FILTER=<regex> restricts the ids.  Prints one line per change; exit 1 if one is no longer caught.
 cd "$(dirname "$0")"
 rc=0
 for id in $(python3 -c "
 import json
 for l in open('seeded/detections.jsonl'):
-    if l.strip(): print(json.loads(l)['id'])"); do
+    if l.strip(): print(json.loads(l)['id'])" | grep -E "${FILTER:-.}"); do
   # the check that is recorded as catching it (the property's own check where that is the case)
   prop=$(python3 -c "
 import json
